@@ -30,5 +30,5 @@ Deliverables, all inside {wt}/_seed/ (create that directory):
   1. patch.diff  — output of `git -C {wt} diff -- reactivex` (the library change only).
   2. demo.py     — a small standalone program (no pytest needed) that exits 0 on the unchanged tree and exits 1 (printing what went wrong) with your change applied. It must be deterministic (use TestScheduler / virtual time, or explicitly gated threads with generous timeouts — no sleeps that race).
   3. meta.json   — {{"property": "{p['id']}", "summary": "<one sentence: what the change does>", "needs": "<what is required for the violation to manifest>", "files_changed": [...], "how_verified": "<commands you ran and their outcomes>"}}
-Verify yourself, in this order, and record the outcomes in meta.json: (a) with the change applied: full test suite passes, demo.py exits 1; (b) `git -C {wt} stash` (or apply the patch in reverse): demo.py exits 0; then re-apply so that the worktree ends WITH the change applied.
+Verify yourself, in this order, and record the outcomes in meta.json: (a) with the change applied: full test suite passes, demo.py exits 1; (b) apply the patch in reverse (`git -C {wt} apply -R _seed/patch.diff`; do NOT use `git stash`: the stash is shared with other worktrees of this repository and other people are working in them): demo.py exits 0; then re-apply (`git -C {wt} apply _seed/patch.diff`) so that the worktree ends WITH the change applied.
 If your first idea makes an existing test fail, pick a different change. Finish by replying with the contents of meta.json and the diff.""")
